@@ -111,6 +111,8 @@ def oracle(ctx, deep):
     ctx.count(("oracle_sessions", len(names)), True, n=len(names))
     for b in r["bad"]:
         key = b.split(":")[0]
+        if key.startswith("coefficient sweep"):
+            key = "coefficient-sweep " + key.split()[2].split("_")[0]
         fails.append({"key": f"C19:{key}", "what": b, "probe": "sessions", "args": {"seed": ctx.seed, "names": names}, "observed": r})
     seen, out = set(), []
     for f in fails:
